@@ -20,15 +20,21 @@ StepClauses(r) ==
         ELSE LET d == Diff(IdentityPairs(e), e, r.post)
              IN  IF d = {} THEN {"step.ids"} ELSE {"step:" \o c : c \in d}
 
-\* the first exported text must have the structure of the format (judged whether or not it could be re-read)
+\* The first exported text is read structurally (independently of the library's reader) to FIND the map's objects
+\* in it: the sequence of object blocks - world, entities, brushes, faces, displacements, groups, visgroups,
+\* cameras, cordons - and output lines must be the objects of the document, in their order (the reader depends on
+\* that order).  Which keyvalue lines a block has, their names, their order and which defaults are written is the
+\* writer's and reader's own business and is not judged (the property fixes only: second text = first text, and
+\* the re-read map has the same content).
 SkelOf(toks) == MapSeq(LAMBDA t : [t |-> t.t, c |-> t.c, d |-> t.d], toks)
-TextStructure(r) == IF r.tokfail THEN {"text.untokenisable"}
-                    ELSE IF r.patched THEN {}      \* same first text as the unpatched record before it
-                    ELSE SkelClauses(Skeleton(r.opts, r.doc), SkelOf(r.toks1))
+TextStructure(r) == IF r.tokfail \/ r.patched THEN {}
+                    ELSE CensusClauses(Skeleton(r.opts, r.doc), SkelOf(r.toks1))
+\* an exported text the independent tokeniser cannot read is compared as it is (possible when IDs are preserved)
+RawText(r) == IF r.tokfail /\ r.opts.preserve /\ r.status = "ok" THEN C(r.raw1 = r.raw2, "text:raw") ELSE {}
 XpClauses(r) ==
     LET o == r.opts
         exp0 == Expected(o, r.doc)
-    IN  TextStructure(r) \cup
+    IN  TextStructure(r) \cup RawText(r) \cup
         IF r.status # "ok" THEN {"xp.parse"}
         ELSE LET exp == Aligned(exp0, r.doc2)
                  ps == IdPairs(exp, r.doc2)
